@@ -311,7 +311,7 @@ def evaluate (b : BSpec K) (s : Seq) : Option (BEval K) :=
         | _, _ => none)
       if checks.any (·.isNone) then none else
       let rel := (List.range sub.length).filter (fun i => checks[i]? == some (some true))
-      let positions : List Int := rel.map (fun (i : Nat) => if loc.strand == -1 then loc.stop - (i : Int) else (i : Int) + loc.start)
+      let positions : List Int := rel.map (fun (i : Nat) => if loc.strand == -1 then loc.stop - 1 - (i : Int) else (i : Int) + loc.start)
       some ⟨NumK.ofInt (-(rel.length : Int)), some (intervalsOf positions Gen.enforceSequenceIntervalLength)⟩
   | enforceChoice choices loc =>
     (loc.extract s).map (fun sub =>
